@@ -355,6 +355,7 @@ func genJournal(r *rng, o genOpts) Journal {
 			}
 			n := 1 + r.intn(6)
 			base := float64(r.rangeInt(50, 30000)) / 100
+			lastPs := ""
 			for k := 0; k < n; k++ {
 				dt := d0.AddDate(0, 0, -early-3)
 				if k > 0 {
@@ -362,6 +363,14 @@ func genJournal(r *rng, o genOpts) Journal {
 				}
 				p := base * (1 + float64(r.rangeInt(-20, 20))/100)
 				ps := fmt.Sprintf("%.4f", p)
+				if k > 0 && lastPs != "" && r.chance(22) {
+					// a quote that is stated again unchanged on a later day (a price feed repeats the last close), next to
+					// quotes of other pairs that do move on that day (seeded change C05f-price-table-dirty-flag-overwritten
+					// skipped the day's re-normalisation when the LAST price of the day equalled the stored one)
+					j = append(j, Dir{Kind: 'P', Date: dateStr(dt), Com: c, Price: lastPs, Target: target})
+					continue
+				}
+				lastPs = ps
 				if r.chance(8) {
 					// a price with 7-10 significant decimal places (a weak currency quoted in a strong one); every other
 					// generated price had at most 6 (seeded change C09d-print-rounds-prices printed prices rounded to 6)
